@@ -266,7 +266,12 @@ def monitor(acc, c, b, dev, nrec_before, mark, bus, reply, exc):
 
 def run_case(acc, c, spec, stacks):
     from ..stack import Stack, signer_device
-    key = c["v1"]
+    # transport: the Ledger HID stack mostly; SGX and TCPSigner (both over the TCP
+    # transport and their own dongle classes) for a fifth of the v5 cases
+    plat = c.setdefault("platform", "ledger" if c["v1"] else
+                        random.Random(c["seed"] ^ 0x9e3779b9).choice(
+                            ["ledger", "ledger", "ledger", "ledger", "sgx", "tcp"]))
+    key = (c["v1"], plat)
     prev = stacks.get(("prev", key))
     if prev is not None and "same_tx_as_previous" not in c and c["form"] != "hash" and \
             "tx" in prev[1] and random.Random(c["seed"] ^ 0x5bd1e995).random() < 0.25:
@@ -283,7 +288,9 @@ def run_case(acc, c, spec, stacks):
     stacks[("prev", key)] = (c, b)
     st = stacks.get(key)
     if st is None:
-        dev = signer_device()
+        dev = signer_device(platform=plat)
+        if plat == "sgx":
+            dev.unlocked = True
         s = Stack(dev, version_one=c["v1"])
         s.__enter__()
         s.initialize()
@@ -298,6 +305,8 @@ def run_case(acc, c, spec, stacks):
     acc.evaluations += 1
     if c["v1"]:
         acc.count("v1_cases")
+    if plat != "ledger":
+        acc.count("cases_over_tcp_transport")
     if b["hostile"]:
         acc.count("hostile_cases")
     monitor(acc, c, b, dev, nrec, mark, s.bus, reply, exc)
@@ -306,7 +315,8 @@ def run_case(acc, c, spec, stacks):
     if "tx" in b:
         kinds = ",".join(sorted({k for ks in b["tx"]["kinds"] for k in ks}))
         nin = len(b["tx"]["ins"])
-    acc.distinct.add("%s|%s|%d|%s|%s|%s|%s" % ("v1" if c["v1"] else "v5", c["form"], nin, kinds,
+    acc.distinct.add("%s|%s|%d|%s|%s|%s|%s" % (("v1" if c["v1"] else "v5") + (
+        "" if plat == "ledger" else ":" + plat), c["form"], nin, kinds,
                                               b["chunk"].describe(), b["hostile"],
                                               b["sigshape"]))
     if len(acc.samples) < 3 and "tx" in b:
@@ -405,7 +415,7 @@ def run_shard(spec, acc):
         c = gen_case(rng, spec, i)
         run_case(acc, c, spec, stacks)
     for k, v in stacks.items():
-        if not isinstance(k, tuple):
+        if k[0] != "prev":
             v[0].__exit__(None, None, None)
 
 
